@@ -7,6 +7,8 @@
 -/
 import PonyVerif.Lemmas.PyPrint7
 import PonyVerif.Lemmas.PreTrans
+import PonyVerif.Lemmas.PreTransCov
+import PonyVerif.Gen.C04Src
 namespace PonyVerif.Props.C04
 open PonyVerif.Model.PyPrint
 
@@ -166,6 +168,22 @@ theorem C04_external_sound (ctx : List String) (n : Node) (hw : WF n = true) (he
   ext_sound ctx n hw he
 
 open PonyVerif.Model.PreTrans in
+/-- The first sentence of the property, over the model of PreTranslator: for EVERY tree whose node labels are distinct and EVERY
+    set of names bound by the query, every occurrence of a name the query does not bind (`freeLeaves`: lambda parameters and
+    query variables excluded) lies inside a member of `PreTranslator(...).externals` — the set that is compiled, evaluated in the
+    caller's scope and passed as parameters — after the replacement of direct children and after the demotion pass. -/
+theorem C04_external_coverage (ctx : List String) (n : Node) (hnd : (labsOf n).Nodup) (l : Nat)
+    (hl : l ∈ freeLeaves ctx n) : l ∈ coverSet (externals ctx n) n :=
+  coverage ctx n hnd l hl
+
+open PonyVerif.Model.PreTrans in
+/-- non-vacuous: `(a, p.x + b)` with `p` bound — the tuple is not external, `a` and `b` are free and both are members -/
+example :
+    let t : Node := .mk .tuple 0 [] (.cons (.mk .nameLoad 1 ["a"] .nil) (.cons (.mk .other 2 []
+      (.cons (.mk .other 3 [] (.cons (.mk .nameLoad 4 ["p"] .nil) .nil)) (.cons (.mk .nameLoad 5 ["b"] .nil) .nil))) .nil))
+    (labsOf t).Nodup ∧ freeLeaves ["p"] t = [1, 5] ∧ externals ["p"] t = [1, 5] := by decide
+
+open PonyVerif.Model.PreTrans in
 /-- `a + f(b)` with `p` bound: the whole expression is external, and it is the one member of the externals -/
 example : externals ["p"] (.mk .other 0 [] (.cons (.mk .nameLoad 1 ["a"] .nil) (.cons (.mk .other 2 []
     (.cons (.mk .nameLoad 3 ["f"] .nil) (.cons (.mk .nameLoad 4 ["b"] .nil) .nil))) .nil))) = [0] := by decide
@@ -178,5 +196,63 @@ theorem C04_external_sound_full_false :
   intro h
   have := h ["p"] (.mk .starred 0 [] (.cons (.mk .nameLoad 1 ["p"] .nil) .nil)) (by decide)
   revert this; decide
+
+/-! ### bridges to the current source (`Gen/C04Src.lean` is regenerated from pony/orm/asttranslation.py on every run) -/
+
+open PonyVerif.Gen
+
+/-- name of the `post…` method `ASTTranslator.dispatch` selects for a binary operator -/
+def binMethod : BinOp → String
+  | .bitOr => "postBitOr" | .bitXor => "postBitXor" | .bitAnd => "postBitAnd" | .lshift => "postLShift" | .rshift => "postRShift"
+  | .add => "postAdd" | .sub => "postSub" | .mult => "postMult" | .div => "postDiv" | .floorDiv => "postFloorDiv"
+  | .mod => "postMod" | .pow => "postPow"
+
+/-- the `@priority(p)` numbers of the source are the model's -/
+theorem C04_bridge_binop (op : BinOp) : C04Src.decorated.lookup (binMethod op) = some op.prio := by
+  cases op <;> decide
+
+theorem C04_bridge_decorated (a b c : Expr) (m : Exprs) (t : CmpTail) (o : CmpOp) (u : UnOp) (ps : Params) :
+    C04Src.decorated.lookup "postOr" = some (codePrio (.boolOp true a b m)) ∧
+    C04Src.decorated.lookup "postAnd" = some (codePrio (.boolOp false a b m)) ∧
+    C04Src.decorated.lookup "postNot" = some (codePrio (.not a)) ∧
+    C04Src.decorated.lookup "postCompare" = some (codePrio (.compare a o b t)) ∧
+    C04Src.decorated.lookup "postUSub" = some (codePrio (.unary u a)) ∧
+    C04Src.decorated.lookup "postUAdd" = some (codePrio (.unary u a)) ∧
+    C04Src.decorated.lookup "postIfExp" = some (codePrio (.ifExp a b c)) ∧
+    C04Src.decorated.lookup "postLambda" = some (codePrio (.lambda ps a)) := by
+  simp only [codePrio]; decide
+
+/-- priorities set by hand, the one of a folded negative constant, and the nodes that set none (f-strings) -/
+theorem C04_bridge_manual (e : Expr) (s : String) (as : Args) (i : Idx) (is : Idxs) (k : KVs) (ps : FParts) :
+    C04Src.manual.lookup "postAttribute" = some (codePrio (.attr e s)) ∧
+    C04Src.manual.lookup "postCall" = some (codePrio (.call e as)) ∧
+    C04Src.manual.lookup "postSubscript" = some (codePrio (.subscript e i)) ∧
+    C04Src.manual.lookup "postSubscript" = some (codePrio (.subscriptT e is)) ∧
+    C04Src.manual.lookup "postConstant" = some (codePrio (.const s)) ∧
+    C04Src.negConstPrio = codePrio (.negConst s) ∧
+    C04Src.manual.lookup "postName" = some (codePrio (.name s)) ∧
+    C04Src.manual.lookup "postList" = some (codePrio (.list as)) ∧
+    C04Src.manual.lookup "postTuple" = some (codePrio (.tuple as)) ∧
+    C04Src.manual.lookup "postDict" = some (codePrio (.dict k)) ∧
+    C04Src.manual.lookup "postJoinedStr" = none ∧ C04Src.decorated.lookup "postJoinedStr" = none ∧
+    C04Src.manual.lookup "postFormattedValue" = none ∧ C04Src.decorated.lookup "postFormattedValue" = none ∧
+    codePrio (.fstr ps) = 0 := by
+  simp only [codePrio]; decide
+
+/-- the two parenthesisation rules: the decorator compares with `>=`, `primary_src` with `> 2` -/
+theorem C04_bridge_rules (p : Nat) (c : Expr) :
+    C04Src.decoratorRule = "GtE" ∧
+    wrapT p c = (if codePrio c ≥ p then .lpar :: (toks c ++ [.rpar]) else toks c) ∧
+    primT c = (if codePrio c > C04Src.primaryThreshold then .lpar :: (toks c ++ [.rpar]) else toks c) := by
+  refine ⟨by decide, rfl, rfl⟩
+
+/-- `nonexternalizable_types` of the source is the model's demotion set -/
+def kindClass : PonyVerif.Model.PreTrans.Kind → String
+  | .keyword => "keyword" | .starred => "Starred" | .slice => "Slice" | .listD => "List" | .tuple => "Tuple"
+  | .dictD => "Dict" | .nameLoad => "Name" | .const => "Constant" | .lambda => "Lambda" | .other => "expr"
+
+theorem C04_bridge_nonexternalizable (k : PonyVerif.Model.PreTrans.Kind) :
+    PonyVerif.Model.PreTrans.nonExternalizable k = C04Src.nonexternalizable.contains (kindClass k) := by
+  cases k <;> decide
 
 end PonyVerif.Props.C04
